@@ -362,6 +362,8 @@ CASES = {"searchsorted": case_searchsorted, "bincount": case_bincount, "histogra
 
 def _nd(rng, maxd=3, maxn=5):
     shape = [rng.randint(1, maxn) for _ in range(rng.randint(1, maxd))]
+    if rng.random() < 0.15:  # interior zero-length chunks
+        return shape, [rand_comp_zeros(rng, s) for s in shape]
     return shape, [rand_comp(rng, s) for s in shape]
 
 
